@@ -639,3 +639,45 @@ def check_C04(A, R, tier):
                      "dependency, and without an altered or missing record the validation verdict is never 'invalidated'.  Not decided: that "
                      "the dependency flags themselves are exact (requirement propagation across the graph), i.e. minimality of the executed set.")
     R.assume("exactness of the per-dependency 'needed' flags (propagation across the graph) is not decided; the rules are necessary conditions")
+
+
+def rule_summary_wrappers_transparent(A, R, rule):
+    """helpers that turn the requirement summary's answer into a yes/no for their callers add nothing of their own: with the summary
+    forced to 'a downstream needs it' they answer 'yes' on every path (a shortcut in front of the summary - 'all downstreams are
+    finished anyway' - overrides a dependency that is flagged as needed; the decision functions behind treat that as impossible)"""
+    pos = positive_answer(A)
+    tabs = summary_table(A)
+    n = 0
+    for t_ in tabs:
+        rb = t_["fn"]
+        rt = rb.locals[0]
+        fty = rt.get("adt") if rt.get("adt") in A.uni.fin else [x for x in A.uni.fin if rt["s"].startswith("std::result::Result<%s," % x)][0]
+        wrap = rt.get("adt") not in A.uni.fin
+        if pos is None:
+            continue
+        val = fin(fty, [pos])
+        rv = adt(RESULT, {0: (val,)}) if wrap else val
+        for b in A.evaluator_methods():
+            if b.name == rb.name:
+                continue
+            s0 = b.locals[0]["s"]
+            if not (s0 == "bool" or s0.startswith("std::result::Result<bool,")):
+                continue
+            calls = [blk for blk in b.blocks if not blk["cleanup"] and blk["term"]["t"]["k"] == "call"
+                     and ((M.callee_of(blk["term"]["t"]) or ("", ""))[1] or (M.callee_of(blk["term"]["t"]) or ("", ""))[0]) == rb.name]
+            if not calls:
+                continue
+            I, fr, out, col = forced_analysis(A, b, {rb.name: (lambda I_, st_, f_, bi_, t2_, a_, sp_, _rv=rv: [(_rv, st_)])},
+                                              cfgd=dict(label="C04T"))
+            r0 = out.locals.get((fr.fid, 0)) if out is not None else None
+            answers = None
+            if r0 is not None and r0[0] == "fin":
+                answers = set(c[0] for c in r0[2])
+            elif r0 is not None and r0[0] == "adt" and r0[1] == RESULT:
+                vs = adt_variants(r0)
+                p0 = vs.get(0, (None,))[0]
+                answers = (set(c[0] for c in p0[2]) if (p0 is not None and p0[0] == "fin") else {0, 1}) | ({"err"} if 1 in vs else set())
+            n += 1
+            R.ob(rule, "%s | with the requirement summary answering 'needed' the helper answers 'yes' on every path" % short(b.name),
+                 answers == {1}, detail="possible answers: %s" % (sorted(map(str, answers)) if answers is not None else r0), site=b.span["s"])
+    R.floor(rule, "yes/no helpers on top of the requirement summary", n, 1)
